@@ -1500,11 +1500,14 @@ namespace ipr::impl {
 
       impl::Alias*
       Scope::make_alias(const ipr::Name& n, const ipr::Expr& i) {
+         // Ask for the type first: an initializer without a type refuses, and
+         // the scope must then be left without an overload set for `n`.
+         const ipr::Type& t = i.type();
          impl::Overload* ovl = overloads.insert(n, node_compare());
-         overload_entry* master = ovl->lookup(i.type());
+         overload_entry* master = ovl->lookup(t);
 
          if (master == nullptr) {
-            impl::Alias* decl = aliases.declare(ovl, i.type());
+            impl::Alias* decl = aliases.declare(ovl, t);
             decl->aliasee = &i;
             add_member(decl);
             return decl;
